@@ -255,6 +255,59 @@ Theorem C11_stale_timer_cancels_newer_attempt_refuted :
 Proof. exact C11_stale_timer_cancels_newer_attempt_refuted_pf. Qed.
 Print Assumptions C11_stale_timer_cancels_newer_attempt_refuted.
 
+(* ---- the bounded user event channel, a user who polls late ----
+   `lstep` / `lrun` (Model.v): the events queue up in a channel of capacity cap; the loop parks inside a
+   handler while its event has no room; waiting producers are served in arrival order; `LPoll` is one
+   `handle.next()`. For every capacity >= 0 and every schedule: the loop is never stuck, *)
+Theorem C11_lazy_no_stuck :
+  forall (c : cfg) (cap : nat) (gs : list lop), snd (lrun c cap linit gs) = true.
+Proof. exact C11_lazy_no_stuck_pf. Qed.
+Print Assumptions C11_lazy_no_stuck.
+
+(* nothing is lost and nothing is reordered: what the user was handed from the queue, followed by what is
+   still queued (in the channel or with a waiting producer), is exactly what was emitted, in order; *)
+Theorem C11_event_channel_no_loss :
+  forall (c : cfg) (cap : nat) (gs : list lop),
+    ltaken_run c cap linit gs ++ lq (lfinal c cap linit gs) = lemitted_run c cap linit gs.
+Proof. exact C11_event_channel_no_loss_pf. Qed.
+Print Assumptions C11_event_channel_no_loss.
+
+(* what a step takes from the queue is what `handle.next()` returns, and a poll always gets the oldest
+   queued event, whatever the capacity *)
+Theorem C11_event_channel_step :
+  forall (c : cfg) (cap : nat) (l : lst) (g : lop) (l' : lst) (ev : list uev) (cl : list call),
+    lstep c cap l g = Some (l', ev, cl) ->
+    ltaken l g ++ lq l' = lq l ++ lemitted c cap l g /\ (ltaken l g <> [] -> ev = ltaken l g).
+Proof. exact lstep_fifo. Qed.
+Print Assumptions C11_event_channel_step.
+
+Theorem C11_poll_delivers_oldest :
+  forall (c : cfg) (cap : nat) (l : lst) (e : uev) (rest : list uev),
+    lq l = e :: rest -> exists l' cl, lstep c cap l LPoll = Some (l', [e], cl).
+Proof. exact lpoll_delivers. Qed.
+Print Assumptions C11_poll_delivers_oldest.
+
+(* the capacity only delays: two capacities, the same schedule, no event scheduled while the loop is
+   parked: same protocol states, same queue, same deliveries at every step *)
+Theorem C11_capacity_only_delays :
+  forall (c : cfg) (cap1 cap2 : nat) (gs : list lop),
+    never_blocked c cap1 linit gs = true -> never_blocked c cap2 linit gs = true ->
+    map (fun x => (lcore (fst (fst x)), snd (fst x))) (fst (lrun c cap1 linit gs)) =
+    map (fun x => (lcore (fst (fst x)), snd (fst x))) (fst (lrun c cap2 linit gs)) /\
+    snd (lrun c cap1 linit gs) = snd (lrun c cap2 linit gs).
+Proof. exact C11_capacity_only_delays_pf. Qed.
+Print Assumptions C11_capacity_only_delays.
+
+Example C11_parked_handler_resumes :
+  map (fun x => (parked 1 (fst (fst x)), snd (fst x), snd x)) (fst (lrun cfg_w0 1 linit w_parked)) =
+  [(false, [], []); (false, [], []); (false, [], []); (false, [], []);
+   (false, [], [COpen 0 0]); (false, [], []); (false, [], []);
+   (true, [], []);                                  (* the timer arm parks on OpenFailure *)
+   (true, [], []);                                  (* nothing else is handled meanwhile *)
+   (false, [UValidate 1], [CForce 0]);              (* the poll makes room: the handler resumes *)
+   (false, [UFail 0 E_REJECTED], [])].
+Proof. vm_compute. reflexivity. Qed.
+
 (* non-vacuity: a prompt history that opens a stream and closes it *)
 Example C11_notification_dropped_after_close :
   events (fst (run cfg_w init (open_by_user ++ [Notify 0; NotifyDie 0 false]))) =
